@@ -38,6 +38,10 @@ class OneShotObserver:
         if self._result is NoResult:
             self.fire(result)
 
+    def error_if_not_fired(self, f):
+        if self._result is NoResult:
+            self.error(f)
+
 
 class SequenceObserver:
     def __init__(self, eventual_queue):
